@@ -499,6 +499,11 @@ func genLabel(t *rapid.T) string {
 	return l
 }
 
+// hostileTexts: strings whose first or last characters are the ones the renderer trims, condenses or pairs
+// (blanks of every kind at either end, brackets, quotes), control characters, invalid UTF-8, a long one.
+var hostileTexts = []string{"\t", "x\t", "\tx", "beta \t", " ", "  ", "x ", " x", "\n", "x\n", "\nx", "\r\n", "x\v", "x\f", "a  b", "a\t\tb", "\u00a0", "x\u00a0", "\u2003x",
+	"(", ")", "( x )", "((", "\"", "'", "x\"", "\x00", "x\x00", "\xff", "x\xff\xfe", "\u200b", strings.Repeat("long ", 300) + "\t"}
+
 func genScalar(t *rapid.T, hostile bool) MIn {
 	k := rapid.SampledFrom([]string{"junk", "junk", "int", "float", "bool", "nil", "op", "userop", "label"}).Draw(t, "scalar")
 	if hostile && rapid.IntRange(0, 2).Draw(t, "hostile?") == 0 {
@@ -508,6 +513,9 @@ func genScalar(t *rapid.T, hostile bool) MIn {
 	switch k {
 	case "junk":
 		m.S = rapid.SampledFrom([]string{"foo", "x", "", "and then", "é", "cond"}).Draw(t, "junk")
+		if rapid.IntRange(0, 2).Draw(t, "hostile-text?") == 0 {
+			m.S = rapid.SampledFrom(hostileTexts).Draw(t, "hostile-text")
+		}
 	case "label":
 		m.S = genLabel(t)
 	}
@@ -529,7 +537,11 @@ func genCondRow(t *rapid.T, depth int, hostile bool) MIn {
 		if depth > 0 && rapid.IntRange(0, 2).Draw(t, "nestedexpr") == 0 {
 			row = append(row, genEnvelope(t, depth-1, hostile))
 		} else {
-			row = append(row, MIn{K: rapid.SampledFrom([]string{"junk", "int", "float", "bool"}).Draw(t, "exk"), S: "v", I: rapid.IntRange(0, 9).Draw(t, "exi")})
+			ex := MIn{K: rapid.SampledFrom([]string{"junk", "int", "float", "bool"}).Draw(t, "exk"), S: "v", I: rapid.IntRange(0, 9).Draw(t, "exi")}
+			if ex.K == "junk" && rapid.IntRange(0, 3).Draw(t, "hostile-expr?") == 0 {
+				ex.S = rapid.SampledFrom(hostileTexts).Draw(t, "hostile-expr")
+			}
+			row = append(row, ex)
 		}
 		return MIn{K: "list", Elems: row}
 	}
